@@ -428,9 +428,12 @@ where
         // slice form: three colours, the middle one is the subject
         let mut sl = [A::of(&[0.25 as T, 0.25 as T, 0.25 as T, 0.0]), a, A::of(&[0.5 as T, 0.5 as T, 0.5 as T, 0.0])];
         sl[..].clamp_assign();
+        // is_within_bounds of whole slices: the subject between two clamped colours, in first and in last place; clamped colours only
+        let sw = [[c, a, c2][..].is_within_bounds() as u8, [a, c][..].is_within_bounds() as u8, [c2, c, a][..].is_within_bounds() as u8,
+                  [c, c2][..].is_within_bounds() as u8];
         json!({"clamp": enc(&c.arr(), false), "clamp2": enc(&c2.arr(), false), "clamp_assign": enc(&ca.arr(), false), "slice": enc(&sl[1].arr(), false),
                "within_in": a.is_within_bounds() as u8, "within_out": c.is_within_bounds() as u8,
-               "within_out_assign": ca.is_within_bounds() as u8})
+               "within_out_assign": ca.is_within_bounds() as u8, "slice_within": sw})
     } else {
         let a: Alpha<A, T> = Alpha { color: A::of(v), alpha: v[3] };
         let c = a.clamp();
